@@ -236,6 +236,7 @@ class Env:
         self.kinds = {}
         self.box = box  # optional small value box (C12): values drawn from tape
         self.nobj = 0  # object labels are per operation (twins may have diverged earlier under an override)
+        self.on_step = None
         return self
 
     def current(self):
@@ -254,6 +255,10 @@ class Env:
         k = self.k
         self.k += 1
         self.kinds[kind] = self.kinds.get(kind, 0) + 1
+        if self.on_step is not None:
+            # the simulator may do something of its own at the k-th interaction of an operation --
+            # from *inside* the running program (a probe activated / deactivated in mid-call)
+            self.on_step(k)
         f = self.faults.get(k)
         if f is not None:
             self.fired.append([k, kind, f])
